@@ -605,6 +605,10 @@ def _idx_value_flags(facts, b, operand, depth=0):
     from_pos = any(o.kind == "field" and isinstance(o.what, tuple) and str(o.what[0]).endswith("index::BlockPos") and o.what[1] == "cur_block_idx" for o in src)
     searched = any(re.search(r"Iterator>?::(find|position|rposition|find_map|rfind)$", c_) for c_ in calls)
     guess = any(re.search(r"::(checked_sub|saturating_sub|wrapping_sub|last|last_mut)$", c_) for c_ in calls)
+    from .core.slicing import index_counted_from_end
+    if any(o.kind == "call" and o.site is not None and index_counted_from_end(b, o.site) for o in src):
+        # `chain.iter().rev().position(..)` counts from the end of the chain: used as a chain index it names another block
+        searched, guess = False, True
     if depth < 2:
         for c_ in calls:
             hb = next((bb_ for nn, bb_ in facts.bodies.items() if strip_generics(nn) == c_), None)
